@@ -20,7 +20,8 @@ RULE = ("Seeded generation. Constructions: decimal degrees (ints up to 1e15, "
         "non-integer powers) result on the operands' stored floats. icontract "
         "class invariant -360 < value < 360 active on every public Angle "
         "method, also during a workload of real library calls (Coordinates, "
-        "Sun, Moon). Non-trivial = |value| >= 360 before reduction, within 2 "
+        "Sun, Moon) and while the repository's own 250 tests run (pytest "
+        "plugin). Non-trivial = |value| >= 360 before reduction, within 2 "
         "ulp of a multiple of 360 or of 0, negative piece not first, "
         "overflowing minutes/seconds, reflected or in-place operator, zero "
         "divisor; distinct by (form, inputs).")
@@ -76,13 +77,16 @@ REQUIRED_CLAUSES = ["construct.range", "construct.sign", "construct.congruent",
                     "op.zero-division", "mod.remainder", "to_positive",
                     "rad==deg*pi/180", "get_ra==deg/15",
                     "invariant.Angle-range"]
-REQUIRED_CONTRACTS = ["invariant:Angle(-360<deg<360)"]
+REQUIRED_CONTRACTS = ["invariant:Angle(-360<deg<360)",
+                      "suite:invariant:Angle(-360<deg<360)"]
 
 
 def shards(tier, seed):
     mult = 20 if tier == "thorough" else 1
-    return [{"name": "s%02d" % i, "idx": i, "n_con": 18000 * mult,
-             "n_op": 18000 * mult, "n_lib": 300 * mult} for i in range(16)]
+    out = [{"name": "s%02d" % i, "idx": i, "n_con": 18000 * mult,
+            "n_op": 18000 * mult, "n_lib": 300 * mult} for i in range(16)]
+    out.append({"name": "suite", "idx": -1})
+    return out
 
 
 # ------------------------------------------------------------------ generators
@@ -621,6 +625,13 @@ def replay(mon, kind, params):
 
 
 def run(mon, spec):
+    if spec["idx"] == -1:
+        # the repository's own tests as one more workload under the Angle /
+        # Epoch class invariants
+        from vpm import suite
+        mon.begin("suite", [])
+        suite.run_suite(mon, "invariants")
+        return
     attach.angle_invariant(mon)
     rng = random.Random(spec["seed"] * 1000003 + spec["idx"])
     for _ in range(spec["n_con"]):
